@@ -2,7 +2,7 @@
 from C01 import TUS as T1
 TUS = ['c11.cc'] + T1[1:] + ['kd_tree']
 def ob(id, entry, mode, cases, expect, bounds, **kw):
-    d = dict(id=id, harness='c11.cc', entry=entry, mode=mode, cases=cases, expect=expect, bounds=bounds, tus=TUS, native=False,
+    d = dict(id=id, harness='c11.cc', entry=entry, mode=mode, cases=cases, expect=expect, bounds=bounds, tus=TUS, native=True,
              stubs=['delaunator::Delaunator replaced (include guard) by a stub returning an arbitrary valid triangulation (any vertex rotation; 4 convex points: either diagonal) in delaunator\'s clockwise orientation', 'sqrt uninterpreted with contract axioms (kd-tree distances)'],
              assumes=['exact-real reading', 'point coordinates on the 3x3 lattice {0,1000,2000}^2 (all shapes enumerated, concrete per case)', '4 points: convex position'], outside=['the merge of defaults and user points in Parameters::get (JSON layer)', 'Delaunay quality', 'more than 4 points', 'spherical longitude alias search'])
     d.update(kw); return d
